@@ -73,7 +73,7 @@ func (e *Exec) crashEnumeration() {
 		}
 		W := int(dry.DB.WriteCount() - w0)
 		dry.App = nil
-		e.Stats.C["commit.db_writes.max"] = max64(e.Stats.C["commit.db_writes.max"], int64(W))
+		e.Stats.C["max.commit_db_writes"] = max64(e.Stats.C["max.commit_db_writes"], int64(W))
 		var pts []crashPoint
 		for c := 0; c <= len(rec.B.Txs)+1; c++ {
 			pts = append(pts, crashPoint{At: CrashAt{Kind: "abci", N: c}, Loss: "kill"})
